@@ -164,6 +164,9 @@ pub fn gen_doc(rng: &mut Rng, id: String) -> Value {
   let date = |rng: &mut Rng| -> i64 {
     if rng.chance(1, 12) {
       -(rng.range(0, 800) * 86_400_000 + rng.range(0, 23) * 3_600_000)
+    } else if rng.chance(1, 25) {
+      // the 31st of May 2021 (day 150 of the year): no "31st of April" to truncate a quarter to
+      DATE_BASE + 150 * 86_400_000 + rng.range(0, 23) * 3_600_000
     } else {
       DATE_BASE + rng.range(0, 500) * 86_400_000 + rng.range(0, 23) * 3_600_000 + rng.range(0, 3) * 900_000
     }
@@ -1224,7 +1227,12 @@ pub fn hits_modulo_ties(view: &mut Value, agg: &Value, by_id: &BTreeMap<String, 
 
 fn values_close(a: &Value, b: &Value) -> bool {
   match (a, b) {
-    (Value::Number(x), Value::Number(y)) => idx::close(x.as_f64().unwrap_or(f64::NAN), y.as_f64().unwrap_or(f64::NAN), REL),
+    (Value::Number(x), Value::Number(y)) => {
+      // relative 1e-9, with an absolute floor of 1e-9 (field values are multiples of 0.25, so a
+      // result like 5.6e-17 from an interpolation that cancels to zero is a zero)
+      let (p, q) = (x.as_f64().unwrap_or(f64::NAN), y.as_f64().unwrap_or(f64::NAN));
+      idx::close(p, q, REL) || (p - q).abs() <= REL
+    }
     (Value::Array(x), Value::Array(y)) => x.len() == y.len() && x.iter().zip(y.iter()).all(|(p, q)| values_close(p, q)),
     (Value::Object(x), Value::Object(y)) => x.len() == y.len() && x.iter().all(|(k, v)| y.get(k).map(|w| values_close(v, w)).unwrap_or(false)),
     _ => a == b,
@@ -1462,22 +1470,61 @@ fn nonempty_view(v: &Value) -> bool {
   v.get("total").and_then(|c| c.as_u64()).unwrap_or(0) > 0 || v.get("count").and_then(|c| c.as_u64()).unwrap_or(0) > 0 || v.get("value").and_then(|c| c.as_u64()).unwrap_or(0) > 0 || v.get("values").is_some()
 }
 
-/// candidate signature for a blamed node, from the request alone
-fn candidate_sig(node: &Value) -> Option<&'static str> {
+/// candidate signatures for a blamed node, from the request alone (most specific first)
+fn candidate_sigs(node: &Value) -> Vec<&'static str> {
+  let mut out = Vec::new();
   match node["type"].as_str().unwrap_or("") {
     "terms" if node.get("min_doc_count").and_then(|m| m.as_u64()).unwrap_or(1) >= 2 || node.get("size").map(|s| !s.is_null()).unwrap_or(false) => {
-      Some("aggs.threshold-per-segment.terms")
+      out.push("aggs.threshold-per-segment.terms")
     }
-    "rare_terms" => Some("aggs.threshold-per-segment.rare_terms"),
-    "histogram" if node.get("min_doc_count").and_then(|m| m.as_u64()).unwrap_or(0) >= 2 => Some("aggs.threshold-per-segment.histogram"),
-    "date_histogram" if node.get("min_doc_count").and_then(|m| m.as_u64()).unwrap_or(0) >= 2 => Some("aggs.threshold-per-segment.date_histogram"),
-    "date_histogram" if fill_quirk(node) => Some("date_histogram.calendar-offset-fill"),
-    "top_hits" if node.get("from").and_then(|m| m.as_u64()).unwrap_or(0) >= 1 => Some("top_hits.from-per-segment"),
+    "rare_terms" => out.push("aggs.threshold-per-segment.rare_terms"),
+    "histogram" if node.get("min_doc_count").and_then(|m| m.as_u64()).unwrap_or(0) >= 2 => out.push("aggs.threshold-per-segment.histogram"),
+    "date_histogram" => {
+      if is_quarter(node) {
+        out.push("date_histogram.quarter-day31");
+      }
+      if fill_quirk(node) {
+        out.push("date_histogram.calendar-offset-fill");
+      }
+      if node.get("min_doc_count").and_then(|m| m.as_u64()).unwrap_or(0) >= 2 {
+        out.push("aggs.threshold-per-segment.date_histogram");
+      }
+    }
+    "top_hits" if node.get("from").and_then(|m| m.as_u64()).unwrap_or(0) >= 1 => out.push("top_hits.from-per-segment"),
     "composite" if node["sources"].as_array().map(|s| s.iter().any(|x| x["type"] == "histogram" && is_i64(x["field"].as_str().unwrap_or("")))).unwrap_or(false) => {
-      Some("composite.histogram-i64")
+      out.push("composite.histogram-i64")
     }
-    _ => None,
+    _ => {}
   }
+  out
+}
+
+fn is_quarter(node: &Value) -> bool {
+  matches!(node.get("calendar_interval").and_then(|c| c.as_str()).map(|c| c.to_ascii_lowercase()).as_deref(), Some("quarter") | Some("1q"))
+}
+
+/// some date the request looks at (document values, `missing`, bounds), shifted by the offset,
+/// falls on a 31st of May
+fn sees_may31(node: &Value, docs: &[Doc]) -> bool {
+  let off = node.get("offset").and_then(|o| o.as_str()).and_then(interval_seconds).map(|s| (s * 1000.0) as i64).unwrap_or(0);
+  let field = node["field"].as_str().unwrap_or("");
+  let mut vals: Vec<i64> = docs.iter().flat_map(|d| d.nums(field).to_vec()).map(|v| v as i64).collect();
+  if let Some(m) = node.get("missing").and_then(|m| m.as_str()).and_then(parse_date_str) {
+    vals.push(m as i64);
+  }
+  for k in ["extended_bounds", "hard_bounds"] {
+    if let Some(b) = node.get(k).filter(|b| !b.is_null()) {
+      for e in ["min", "max"] {
+        if let Some(v) = b[e].as_str().and_then(parse_date_str) {
+          vals.push(v as i64);
+        }
+      }
+    }
+  }
+  vals.iter().any(|v| {
+    let (_, m, d) = civil_from_days((v - off).div_euclid(86_400_000));
+    m == 5 && d == 31
+  })
 }
 
 /// calendar interval + offset + (extended or hard) bounds
@@ -1508,6 +1555,9 @@ fn neutralize(node: &mut Value) {
         if let Some(m) = node.as_object_mut() {
           m.remove("offset");
         }
+      }
+      if is_quarter(node) {
+        node["calendar_interval"] = json!("month");
       }
     }
     "top_hits" => {
@@ -1671,22 +1721,34 @@ impl Prop for C12 {
       let observed = json!({"layout": li, "segments": built[li].segs.len(), "path": d.path, "node": node, "diff": d.what, "impl": g, "expected": w});
       let mut sig = format!("aggs.mismatch.{kind}");
       let mut what = format!("aggregation `{kind}` differs from the computation over all matched live documents");
-      if let Some(cand) = candidate_sig(&node) {
+      for cand in candidate_sigs(&node) {
+        if !sig.starts_with("aggs.mismatch") {
+          break;
+        }
         // predicate of the candidate signature, checked on this case
         let ok = if cand == "composite.histogram-i64" {
           // no buckets at all in every layout although documents carry values
-          let empty_everywhere = readers.iter().all(|r| {
-            impl_views(r, query, &work).map(|(v, _)| {
-              let mut cur = v.get(&d.path[0]).cloned().unwrap_or(Value::Null);
-              // walk down along the path through the first bucket that has the child
-              for p in &d.path[1..] {
-                let next = cur["buckets"].as_array().and_then(|bs| bs.iter().find_map(|b| b["subs"].get(p).cloned())).unwrap_or(Value::Null);
-                cur = next;
+          // every instance of the node (one per parent bucket) in every layout
+          let mut n_inst = 0usize;
+          let mut all_empty = true;
+          for r in readers.iter() {
+            match impl_views(r, query, &work) {
+              Ok((v, _)) => {
+                let mut cur: Vec<Value> = v.get(&d.path[0]).cloned().into_iter().collect();
+                for p in &d.path[1..] {
+                  cur = cur.iter().flat_map(|c| c["buckets"].as_array().cloned().unwrap_or_default()).filter_map(|b| b["subs"].get(p).cloned()).collect();
+                }
+                for c in cur {
+                  n_inst += 1;
+                  if !c["buckets"].as_array().map(|b| b.is_empty()).unwrap_or(false) {
+                    all_empty = false;
+                  }
+                }
               }
-              cur["buckets"].as_array().map(|b| b.is_empty()).unwrap_or(false)
-            }).unwrap_or(false)
-          });
-          empty_everywhere
+              Err(_) => all_empty = false,
+            }
+          }
+          n_inst > 0 && all_empty
         } else {
           // the one-segment layout is right, and without this node's thresholds every layout is
           // every per-segment threshold of the tree switched off / only this node's left on
@@ -1712,6 +1774,9 @@ impl Prop for C12 {
           if cand == "date_histogram.calendar-offset-fill" {
             // independent of the layout: without the offset every layout is right
             relaxed_ok
+          } else if cand == "date_histogram.quarter-day31" {
+            // independent of the layout: a 31st of May is involved, and by month all is right
+            relaxed_ok && sees_may31(&node, &docs)
           } else {
             single_ok && relaxed_ok && built[li].segs.len() > 1
           }
@@ -1721,6 +1786,7 @@ impl Prop for C12 {
           what = match cand {
             "composite.histogram-i64" => "composite aggregation with a histogram source over an i64 field returns no buckets".to_string(),
             "date_histogram.calendar-offset-fill" => "date_histogram with calendar interval, offset and bounds: the empty buckets created from the bounds lose the offset after the first step (add_calendar drops the time of day)".to_string(),
+            "date_histogram.quarter-day31" => "date_histogram by calendar quarter drops values dated 31 May (and the bounds fill when a bound is): truncate_calendar calls with_month(4) on the 31st before with_day(1)".to_string(),
             "top_hits.from-per-segment" => "top_hits applies `from` in every segment's finish() and again in every merge: wrong window when the hits are spread over several segments".to_string(),
             _ => format!("`{kind}` applies its doc-count threshold / size per segment before merging: wrong buckets when a key is spread over several segments"),
           };
